@@ -32,6 +32,11 @@ type Config struct {
 	Budget    int  // deviations allowed
 	Mode      int  // ModeDelay / ModePreemption
 	TimeFirst bool // offer "let virtual time advance to the next timer/deadline first" as a (costed) alternative
+	// SleepSets turns on sleep-set partial-order reduction (only sound for UNBOUNDED exploration: give a budget that is
+	// never exhausted). A thread whose pending transition was already explored from this state as an earlier sibling
+	// stays asleep until a transition on the same object (or on an unlabelled one) is executed; an execution in which every
+	// enabled thread is asleep is redundant and is cut (Outcome.Pruned).
+	SleepSets bool
 	MaxSteps  int  // step cap per execution (0 = 100000); exceeding it ends the execution with Outcome.StepLimit
 	Trace     bool // record the step log
 	Watchdog  time.Duration
@@ -50,6 +55,9 @@ type Outcome struct {
 	Deadlock  bool     // no enabled thread, no pending timer, threads unfinished
 	Blocked   []string // names (with wait labels) of the threads blocked at deadlock
 	StepLimit bool
+	// Pruned: sleep-set reduction cut this execution (everything it could still do is covered by another execution);
+	// it must not be judged.
+	Pruned bool
 	// Unsupported: the code under test used a construct the scheduler does not model (e.g. a rendezvous on an unbuffered
 	// channel). The execution is abandoned; the check must end INCONCLUSIVE, never with a verdict.
 	Unsupported string
@@ -74,6 +82,7 @@ type thread struct {
 	cond    func() bool
 	wakeAt  int64 // virtual ns at which the thread becomes enabled regardless of cond (0 = never)
 	waitLbl string
+	pend    any  // object of the transition the thread performs when it is resumed (nil = unknown: conflicts with everything)
 	harness bool // a wait of the test harness (client-side read deadline, handler sleep): never the target of "time first"
 	quiesce bool // waiting for quiescence: enabled only when nothing else can run without time advancing
 	system  bool // executes repository code (Serve, connection goroutines, Shutdown caller) — informational
@@ -94,7 +103,8 @@ type sched struct {
 	finished            bool
 	done                chan struct{}
 	out                 Outcome
-	gen                 int64   // bumped by every external event (context cancelled, timer fired, channel operation by the harness)
+	gen                 int64 // bumped by every external event (context cancelled, timer fired, channel operation by the harness)
+	sleep               map[*thread]bool
 	eagerFor, eagerBack *thread // a freshly spawned thread running its thread-local prologue, and who to return to
 	noteSeq             int64
 	notes               map[any]int64
@@ -343,6 +353,7 @@ func (sc *sched) pick(label string) *thread {
 			if q != nil {
 				q.quiesce = false
 				q.cond = func() bool { return true }
+				sc.sleep = nil
 				return q
 			}
 			w, ok := sc.nextWake()
@@ -357,8 +368,24 @@ func (sc *sched) pick(label string) *thread {
 				sc.abort()
 				return nil
 			}
+			sc.sleep = nil // time passing may change what any pending transition does
 			vtime.AdvanceToNs(w)
 			continue
+		}
+		if sc.cfg.SleepSets && len(sc.sleep) > 0 {
+			awake := en[:0:0]
+			for _, t := range en {
+				if !sc.sleep[t] {
+					awake = append(awake, t)
+				}
+			}
+			if len(awake) == 0 {
+				sc.out.Pruned = true
+				sc.abort()
+				return nil
+			}
+			en = awake
+			curEnabled = len(en) > 0 && en[0] == cur
 		}
 		n := len(en)
 		timeAlt := false
@@ -370,10 +397,10 @@ func (sc *sched) pick(label string) *thread {
 		}
 		free := sc.cfg.Mode == ModePreemption && !curEnabled
 		if !free && sc.budget <= 0 {
-			return en[0]
+			return sc.chosen(en, 0)
 		}
 		if n == 1 && !timeAlt {
-			return en[0]
+			return sc.chosen(en, 0)
 		}
 		alts := n
 		if timeAlt {
@@ -382,11 +409,12 @@ func (sc *sched) pick(label string) *thread {
 		sc.out.ChoiceSteps = append(sc.out.ChoiceSteps, sc.out.Steps)
 		ch := sc.cfg.Choose(alts, label)
 		if ch == 0 {
-			return en[0]
+			return sc.chosen(en, 0)
 		}
 		if timeAlt && ch == n {
 			sc.budget--
 			w, _ := sc.nextWake()
+			sc.sleep = nil // time passing may change what any pending transition does
 			vtime.AdvanceToNs(w)
 			if sc.cfg.Trace {
 				sc.out.Trace = append(sc.out.Trace, Step{-1, "time-first"})
@@ -396,8 +424,31 @@ func (sc *sched) pick(label string) *thread {
 		if !free {
 			sc.budget--
 		}
-		return en[ch]
+		return sc.chosen(en, ch)
 	}
+}
+
+// chosen returns en[k] and maintains the sleep set: the siblings en[0..k-1] were (or are being) explored from this very
+// state, so they go to sleep in this branch; whoever's pending transition may conflict with the one now taken wakes up.
+func (sc *sched) chosen(en []*thread, k int) *thread {
+	t := en[k]
+	if !sc.cfg.SleepSets {
+		return t
+	}
+	ns := map[*thread]bool{}
+	add := func(u *thread) {
+		if u != t && u.pend != nil && t.pend != nil && u.pend != t.pend {
+			ns[u] = true
+		}
+	}
+	for u := range sc.sleep {
+		add(u)
+	}
+	for _, u := range en[:k] {
+		add(u)
+	}
+	sc.sleep = ns
+	return t
 }
 
 func (sc *sched) me() *thread { return sc.cur }
@@ -429,8 +480,13 @@ func (sc *sched) yield(t *thread, label string) {
 	}
 }
 
-// Point is a scheduling point: the running thread may be descheduled here.
-func Point(label string) {
+// Point is a scheduling point: the running thread may be descheduled here. What the thread does next is not described
+// (for the sleep-set reduction it conflicts with everything).
+func Point(label string) { PointObj(label, nil) }
+
+// PointObj is Point for a thread whose next transition (everything up to its next scheduling operation) touches only
+// the shared object obj - a mutex, an atomic variable, a connection, a field name. obj must be comparable.
+func PointObj(label string, obj any) {
 	sc := s
 	if sc == nil {
 		return
@@ -439,6 +495,7 @@ func Point(label string) {
 		runtime.Goexit()
 	}
 	t := sc.me()
+	t.pend = obj
 	sc.step(t, label)
 	sc.yield(t, label)
 }
@@ -448,15 +505,25 @@ func Point(label string) {
 // even if cond() holds now; when the call returns, cond() held (or the deadline had passed) at the moment the thread
 // was scheduled and no other thread has run since.
 func PointWhen(label string, cond func() bool, wakeAtNs int64) {
-	pointWhen(label, cond, wakeAtNs, false)
+	pointWhen(label, cond, wakeAtNs, false, nil)
+}
+
+// PointWhenObj is PointWhen whose transition touches only obj (see PointObj).
+func PointWhenObj(label string, cond func() bool, wakeAtNs int64, obj any) {
+	pointWhen(label, cond, wakeAtNs, false, obj)
 }
 
 // PointWhenH is PointWhen for waits of the test harness itself ("time first" never jumps to their deadline).
 func PointWhenH(label string, cond func() bool, wakeAtNs int64) {
-	pointWhen(label, cond, wakeAtNs, true)
+	pointWhen(label, cond, wakeAtNs, true, nil)
 }
 
-func pointWhen(label string, cond func() bool, wakeAtNs int64, harness bool) {
+// PointWhenHObj is PointWhenH with an object.
+func PointWhenHObj(label string, cond func() bool, wakeAtNs int64, obj any) {
+	pointWhen(label, cond, wakeAtNs, true, obj)
+}
+
+func pointWhen(label string, cond func() bool, wakeAtNs int64, harness bool, obj any) {
 	sc := s
 	if sc == nil {
 		panic("vsched.PointWhen without an execution: " + label)
@@ -466,6 +533,7 @@ func pointWhen(label string, cond func() bool, wakeAtNs int64, harness bool) {
 	}
 	t := sc.me()
 	t.state, t.cond, t.wakeAt, t.waitLbl, t.harness = stBlocked, cond, wakeAtNs, label, harness
+	t.pend = obj
 	sc.step(t, label)
 	sc.yield(t, label)
 	t.state, t.cond, t.wakeAt = stRunnable, nil, 0
@@ -491,7 +559,7 @@ func block(label string, cond func() bool, wakeAtNs int64, harness bool) {
 	if cond() || (wakeAtNs > 0 && int64(vtime.Elapsed()) >= wakeAtNs) {
 		return
 	}
-	pointWhen("block:"+label, cond, wakeAtNs, harness)
+	pointWhen("block:"+label, cond, wakeAtNs, harness, nil)
 }
 
 // Quiesce suspends the running thread until no other thread can run without virtual time advancing.
@@ -505,6 +573,7 @@ func Quiesce() {
 	}
 	t := sc.me()
 	t.state, t.cond, t.wakeAt, t.waitLbl, t.quiesce = stBlocked, nil, 0, "quiesce", true
+	t.pend = nil
 	sc.step(t, "block:quiesce")
 	sc.yield(t, "quiesce")
 	t.state, t.cond, t.wakeAt, t.quiesce = stRunnable, nil, 0, false
@@ -521,8 +590,10 @@ func GoNamed(name string, f func(), system bool) {
 		go f()
 		return
 	}
+	// the scheduling point comes first: what follows it (creating the thread, its thread-local prologue, and the
+	// spawner's code up to its next scheduling operation) touches no shared object
+	PointObj("go", new(int))
 	Spawn(name, f, system)
-	Point("go")
 }
 
 // Spawn starts f as a new thread without a scheduling point of the spawner (harness set-up: all threads of a scenario
@@ -663,7 +734,15 @@ func sleep(d time.Duration) {
 var HarnessSleep = true
 
 // Access marks a statement that reads or writes a mutable shared field: a preemption window around plain memory.
-func Access(label string) { Point(label) }
+func Access(label string) {
+	// the label ends with the names of the fields the statement mentions: "file:line f1 f2"; one field = one object
+	// (all instances of the struct conflated), several fields = unknown
+	obj := any(nil)
+	if i := strings.IndexByte(label, ' '); i >= 0 && strings.IndexByte(label[i+1:], ' ') < 0 {
+		obj = "field:" + label[i+1:]
+	}
+	PointObj(label, obj)
+}
 
 // NowNs is the virtual clock in ns.
 func NowNs() int64 { return int64(vtime.Elapsed()) }
